@@ -261,7 +261,7 @@ SAFE_VALS = ["v", "Hello World", " sp ", 0, 5, "", True, False, None, "a|b", "x 
 HOSTILE = ["{{a}}", "{{?b}}", "{{>t0}}", "{{#if a}}x{{/if}}", "}}", "{{", "{", "}", "{{index}}", "{{item}}",
            "{{name|upper}}", "{{#each xs}}q{{/each}}", "{{{", "x}y", "{{secret}}", "{{#else}}", "{{/if}}", "{{/each}}",
            "{{.}}", "{{c|dflt}}", "{{b|", "a}}", "{{>missing}}", "{{#if flag}}", "{{flag", {"k": "v"}, {"a": "{{b}}"}]
-DEFAULTS = ["none", "N/A", "a b", "upper", "0", "é", "x|y", "#else"]
+DEFAULTS = ["none", "N/A", "a b", "upper", "0", "é", "x|y", "#else", "my f"]
 BDEFAULTS = ["{", "a{b", "{{c"]
 DICTS = [{"a": "A1", "q": "Q"}, {"item": "OVR"}, {"index": "IDX", "b": "B2"}, {}, {".": "DOT"}]
 HDICTS = [{"a": "{{b}}"}, {"q": "}}"}, {"a b": "SP"}]
@@ -294,7 +294,7 @@ class C12(Prop):
     all_branches = ["cond:then", "cond:else", "cond:noelse", "loop:items", "loop:empty", "loop:notlist", "loop:dict",
                     "inc:known", "inc:unknown", "filt:apply", "filt:unknown", "filt:unbound", "dflt:bound",
                     "dflt:default", "dflt:isfilter", "opt:bound", "opt:unbound", "var:bound", "var:unbound",
-                    "strict:raise", "raise:filter", "raise:recursion", "warn:required",
+                    "strict:raise", "raise:filter", "raise:recursion", "warn:any",
                     "layers:agree", "layers:differ", "spec:agree", "spec:differ", "spec:none"]
     assumptions = [
         "CPython's re (\\w, \\s, leftmost non-overlapping matching), str.replace, str()/bool() of bound values and the "
@@ -311,7 +311,7 @@ class C12(Prop):
         import_repo()
         from operon_ai.organelles import ribosome as m
         self.m = m
-        self.custom = {"bang": lambda x: str(x) + "!"}
+        self.custom = {"bang": lambda x: str(x) + "!", "my f": lambda x: "<" + str(x) + ">"}
         rb = m.Ribosome(silent=True, filters=self.custom)
         self.filter_names = list(rb.filters.keys())
         probe = m.Ribosome(silent=True).synthesize("{{>zq}}").sequence
